@@ -448,6 +448,12 @@ func (api *API) mapDecodeStructFields(
 		// an inlined field that carries a field key is nested under that key by the map encoder
 		// (a map is never inlined by the map encoder, see mapEncodeStructFields)
 		if sField.settings.inlined && sField.settings.ts.fieldKey == nil && DeRefPointer(sField.fType).Kind() != reflect.Map {
+			// the map encoder leaves out an inlined struct that is optional and nil (or omitempty and empty) like any
+			// other field: if none of its keys is there, there is nothing to decode
+			if (sField.settings.isOptional || sField.settings.omitEmpty) && !api.hasKeyOfStruct(m, sField.fType) {
+				continue
+			}
+
 			if err := api.mapDecode(ctx, m, fieldValue, sField.settings.ts, opts); err != nil {
 				return ierrors.Wrapf(err, "failed to deserialize inlined struct field %s", sField.name)
 			}
@@ -632,4 +638,45 @@ func mapDecodeBytes(mapVal any, ts TypeSettings) ([]byte, error) {
 	}
 
 	return byteSlice, nil
+}
+
+// hasKeyOfStruct returns whether the map holds an entry for at least one field of the given struct type (fields of
+// embedded and of inlined structs included). Types that are not structs (an inlined interface) are not looked into:
+// for them the answer is true.
+func (api *API) hasKeyOfStruct(m map[string]any, structType reflect.Type) bool {
+	structType = DeRefPointer(structType)
+	if structType.Kind() != reflect.Struct || structType == timeType || structType == bigIntPtrType.Elem() {
+		return true
+	}
+
+	structFields, err := api.getStructFields(structType)
+	if err != nil {
+		return true
+	}
+
+	// the type code of the struct is one of its keys
+	if structTypeSettings, _ := api.typeSettingsRegistry.GetByType(structType); structTypeSettings.ObjectType() != nil {
+		if _, has := m[keyType]; has {
+			return true
+		}
+	}
+
+	for _, sField := range structFields {
+		switch {
+		case sField.settings.ts.fieldKey != nil:
+			if _, has := m[*sField.settings.ts.fieldKey]; has {
+				return true
+			}
+		case sField.isEmbedded || sField.settings.inlined:
+			if DeRefPointer(sField.fType).Kind() != reflect.Struct || api.hasKeyOfStruct(m, sField.fType) {
+				return true
+			}
+		default:
+			if _, has := m[FieldKeyString(sField.name)]; has {
+				return true
+			}
+		}
+	}
+
+	return false
 }
